@@ -162,6 +162,7 @@ Section Proofs.
                        lookup_nat (path_of C k) (files st) = Some (code C k);
     i_wcode : forall k s, lookup_nat k (wraps st) = Some (Some s) -> ~ In k (m_stale m) -> s = code C k;
     i_table : forall k, In k (table st) -> In k (m_called m);
+    i_named : forall k, In k (table st) -> named C k = true;
     i_cur : forall s, m_cur m = Some s -> disk st = Some s;
     i_disk : forall s, disk st = Some s -> exists k, s = code C k;
     i_entries : forall d v, In (d, v) (entries st) -> exists s, disk st = Some s /\ provenance s d v;
@@ -228,7 +229,8 @@ Section Proofs.
   Qed.
 
   Definition usable (m : mon) (k : nat) : Prop :=
-    In k (m_wraps m) /\ ~ In k (m_stale m) /\ (~ In k (m_called m) \/ m_cur m = Some (code C k)).
+    In k (m_wraps m) /\ ~ In k (m_stale m) /\
+    (named C k = false \/ ~ In k (m_called m) \/ m_cur m = Some (code C k)).
 
   Lemma Inv_write : forall st m k en,
     Inv st m -> (en = [] \/ (en = entries st /\ (disk st = None \/ disk st = Some (code C k)))) ->
@@ -236,6 +238,7 @@ Section Proofs.
   Proof.
     intros st m k en I Hen. pose proof I as I'. destruct I. constructor; cbn; auto.
     - intros k' Hin. destruct (named C k); [destruct Hin as [->|Hin]|]; auto.
+    - intros k' Hin. destruct (named C k) eqn:En; [destruct Hin as [->|Hin]|]; auto.
     - intros s H. inversion H. exists k. reflexivity.
     - intros d v Hin. destruct Hen as [->|[-> Hd]]; [destruct Hin|].
       destruct (i_entries0 d v Hin) as [s [Hs Hp]]. destruct Hd as [Hd|Hd]; rewrite Hd in Hs.
@@ -259,7 +262,8 @@ Section Proofs.
     intros st m k I [Hw [Hs Hc]]. unfold check_code.
     destruct (mem_nat k (table st)) eqn:Et.
     - apply mem_nat_In in Et. pose proof (i_table _ _ I k Et) as Hcalled.
-      destruct Hc as [Hc|Hc]; [contradiction|].
+      pose proof (i_named _ _ I k Et) as Hnamed.
+      destruct Hc as [Hc|[Hc|Hc]]; [congruence | contradiction |].
       pose proof (i_cur _ _ I _ Hc) as Hd.
       exists true, st. isplit; auto. apply Inv_used_nochange; assumption.
     - destruct (source_of_ok st m k I Hw Hs) as [st1 [Hso [I1 [Hd1 [He1 [Ht1 Hr1]]]]]].
@@ -315,14 +319,16 @@ Section Proofs.
     (mem_nat k (m_wraps m) = false /\ m' = m) \/ (usable m k /\ m' = mon_used m k).
   Proof.
     intros m k m'. unfold use. destruct (mem_nat k (m_wraps m)) eqn:Ew; [|intros H; inversion H; auto].
-    destruct (negb (mem_nat k (m_stale m)) && (negb (mem_nat k (m_called m)) || cur_is C m (code C k))) eqn:E;
+    destruct (negb (mem_nat k (m_stale m))
+              && (negb (named C k) || negb (mem_nat k (m_called m)) || cur_is C m (code C k))) eqn:E;
       [|discriminate].
     intros H. inversion H. right. split; [|reflexivity].
     apply andb_true_iff in E. destruct E as [E1 E2]. apply negb_true_iff in E1.
     split; [apply mem_nat_In; exact Ew|]. split; [apply mem_nat_false; exact E1|].
-    apply orb_true_iff in E2. destruct E2 as [E2|E2].
-    - left. apply negb_true_iff in E2. apply mem_nat_false. exact E2.
-    - right. unfold cur_is in E2. destruct (m_cur m) as [s'|]; [|discriminate].
+    apply orb_true_iff in E2. destruct E2 as [E2|E2]; [apply orb_true_iff in E2; destruct E2 as [E2|E2]|].
+    - left. apply negb_true_iff in E2. exact E2.
+    - right. left. apply negb_true_iff in E2. apply mem_nat_false. exact E2.
+    - right. right. unfold cur_is in E2. destruct (m_cur m) as [s'|]; [|discriminate].
       apply src_eqb_spec in E2. subst. reflexivity.
   Qed.
 
@@ -407,6 +413,7 @@ Section Proofs.
         intros Hc. apply Hst. apply in_or_app. right. apply remove_nat_In. split; assumption.
     - intros k Hin. apply remove_nat_In in Hin. destruct Hin as [Hin Hne].
       apply remove_nat_In. split; [apply i_table0; exact Hin | exact Hne].
+    - intros k Hin. apply remove_nat_In in Hin. apply i_named0. tauto.
     - exact i_cur0.
     - exact i_disk0.
     - exact i_entries0.
@@ -534,9 +541,9 @@ Section Proofs.
     assert (Huse : forall k, exists m', use C m k = Some m' /\ mon_uniform m').
     { intros k. unfold use. destruct (mem_nat k (m_wraps m)); [|exists m; split; [reflexivity | split; assumption]].
       rewrite Hs. unfold mem_nat at 1. cbn [existsb negb andb].
-      assert (E : negb (mem_nat k (m_called m)) || cur_is C m (code C k) = true).
+      assert (E : negb (named C k) || negb (mem_nat k (m_called m)) || cur_is C m (code C k) = true).
       { destruct Hc as [Hc|[k0 Hc]].
-        - rewrite Hc. reflexivity.
+        - rewrite Hc. apply orb_true_iff. left. apply orb_true_r.
         - unfold cur_is. rewrite Hc. rewrite (UN k0 k). rewrite seqb_refl. apply orb_true_r. }
       rewrite E. eexists. split; [reflexivity|]. split; cbn; [reflexivity | right; exists k; reflexivity]. }
     destruct e as [j|k|k c vld|k c vld|k c vld|r|r|k| |ds|]; cbn;
